@@ -32,6 +32,7 @@ var Battery = []string{
 // probability ~0.7, then one node may be perturbed so that hit, miss and
 // mistype all stay frequent.
 func (g *Gen) DocFor(p *spec.Path) interface{} {
+	g.budget = 300 // planted structure is bounded whatever the path looks like (long paths would otherwise grow it exponentially)
 	d := g.build(p.Steps, 0, nil)
 	// $-rooted operands inside filters look at the root: give it some members
 	if m, ok := d.(map[string]interface{}); ok && g.R.Intn(2) == 0 {
@@ -51,6 +52,10 @@ func (g *Gen) DocFor(p *spec.Path) interface{} {
 func (g *Gen) hit() bool { return g.R.Intn(10) < 7 }
 
 func (g *Gen) build(steps []spec.Step, i int, q *spec.Query) interface{} {
+	g.budget--
+	if g.budget < 0 {
+		return g.Leaf()
+	}
 	if i >= len(steps) {
 		return g.Doc(2)
 	}
